@@ -17,6 +17,7 @@ The check establishes the premise for everything reachable from eval_node:
 Not decided: the pointwise-ness of the library primitives themselves (L2, L5)."""
 import callgraph
 import evalnode as E
+import norm
 import lowlevel
 import semantics as sem
 import terms
@@ -135,7 +136,8 @@ def run(prog, rep):
         return
     eng = terms.Engine(prog, inline=False)
     edges = callgraph.build(prog, eng)
-    ieng = terms.Engine(prog, inline=True)
+    # callers are summarised with the helpers of the low-level module inlined (and nothing else: the evaluator itself stays shallow)
+    ieng = terms.Engine(prog, inline=True, hooks=E.Hooks(["evaluation::low_level_operations::"]))
     reach = callgraph.reachable(prog, edges, [en.fn.qual], with_display=False)
     n_fn = 0
     for q in sorted(reach):
@@ -187,6 +189,10 @@ def run(prog, rep):
                     in_loop = bool(st.loops)
                     if in_loop and any(x.kind == "assign" and any(c[0] == "if" and any(y == st.term for y in [c[1]] + list(subterms(c[1]))) for c in x.pc) for x in s.sites):
                         why = "saturation guard `!update.is_empty()` (a no-op update is skipped; the limit is unchanged)"
+                    elif s.ret is not None and sem.first_nonempty_update(("matches", norm.Normalizer()(s.ret), norm.SOME_DESC), f, norm.Normalizer()) is True \
+                            and any(y == st.term for y in subterms(s.ret)):
+                        # a helper that returns `variables.map(update).find(|u| !u.is_empty())`
+                        why = "saturation search: the first variable whose update is not empty (a no-op update is skipped; the limit is unchanged)"
                     elif (f is en.fn or f.path.startswith(E.ALG)) and "compute_valid_domain_for_var" in pt(st.args[0]):
                         why = "empty-universe shortcut of a domain quantifier (C02-R1 gives the values; they agree with the generic branch on colours with an empty domain)"
                 rep.check(why is not None, "C20-R2", f"{f.name}/{l or st.name}@{st.ordinal}", st.where(), why or "",
